@@ -19,7 +19,8 @@ LEVEL_TEXT = ("Every path/geometry function is run on every offset of every "
               "its return value is judged by an independent BFS; bounded "
               "exhaustive exploration is the right level for pure functions of "
               "small integer inputs whose failure modes are size/wrap "
-              "specific.")
+              "specific."
+              " Two further repetitions per pair run with the library's tie-breaks scripted to the ends of their ranges.")
 LEVEL_NOTE = ("Trusted: the harness BFS over the six link vectors; sizes "
               "beyond the bound and coordinates beyond +-2000 are not "
               "explored.")
